@@ -78,7 +78,8 @@ def main():
         verdicts = {}
         for pid in checks:
             t0 = time.time()
-            p = subprocess.run([os.path.join(VERIF, "check"), pid, "quick"], cwd=VERIF, env=dict(ENV, VERIF_REPO=wt), stdout=subprocess.PIPE, stderr=subprocess.STDOUT, text=True)
+            p = subprocess.run([os.path.join(VERIF, "check"), pid, "quick"], cwd=VERIF, env=dict(ENV, VERIF_REPO=wt, VERIF_ALT_DIR=os.path.join(VERIF, ".work", "alt-" + name)),
+                               stdout=subprocess.PIPE, stderr=subprocess.STDOUT, text=True)
             first = [l.strip()[:220] for l in p.stdout.splitlines() if l.strip().startswith("[")][:1]
             verdicts[pid] = {"exit": p.returncode, "caught": p.returncode == 1, "secs": round(time.time() - t0, 1), "first_failure": first[0] if first else ""}
         res["checks"] = verdicts
@@ -102,7 +103,7 @@ def main():
     finally:
         for w in (wt, clean):
             sh("git -C /repo worktree remove --force %s; rm -rf %s" % (w, w))
-        shutil.rmtree(os.path.join(VERIF, ".work", "alt"), ignore_errors=True)
+        shutil.rmtree(os.path.join(VERIF, ".work", "alt-" + name), ignore_errors=True)
 
 
 if __name__ == "__main__":
